@@ -15,7 +15,7 @@ import os
 import re
 import shutil
 
-from ..core import Ctx, derive_seed
+from ..core import derive_seed
 from ..fprog import harness
 from ..fprog.native import FFLAGS
 from .. import irdump, wellformed as W
@@ -32,7 +32,10 @@ RULE = ('one Hypothesis draw = one program of one family (assoc: gen_assoc + do_
         'gen_loops + unroll/fusion/fission/interchange (function and TransformLoopsTransformation) and split_loop/block_loop_arrays; '
         'inline: gen_inline + 3 of the 8 entry-point variants of C28; extract: gen_extract + outline/extract/ExtractTransformation; '
         'callsig: gen_callsig + the Scheduler pipelines of C34; param: gen_param + ParametriseTransformation through the Scheduler), '
-        'options drawn as in the home check, known-finding triggers of the home check excluded by construction (counted). '
+        'options drawn as in the home check, known-finding triggers of the home check excluded by construction (counted; inline: a '
+        'failing case in which C28 recognises the trigger of one of its listed findings is counted as excluded too). Three listed '
+        'root causes of C41 itself are ingredients of nearly every case of their transformation (split_loop, flatten_arrays, negative '
+        'value with replace_by_value) and are not generated while their line is listed (counted). '
         'One evaluation = one (program, transformation, options). After the transformation, for every program unit of the '
         'transformed files (modules, routines, members, interface bodies): (1) every TypedSymbol reachable in spec/body (incl. '
         'kind/initial/length of declared types) has a scope that IS the unit, a scoped node inside it, a contained unit or a real '
@@ -40,7 +43,11 @@ RULE = ('one Hypothesis draw = one program of one family (assoc: gen_assoc + do_
         'function result; (3) Sourcefile.to_fortran() is parsed again by the FP frontend and yields the same units; (4) gfortran '
         '-fsyntax-only accepts the files in dependency order. Anomalies already present before the transformation are not counted. '
         'non-trivial = the irdump of the files changed AND the set of (unit, symbol name) reachable in the units changed (a symbol '
-        'was introduced or removed); distinct by hash of (family, program, transformation, options)')
+        'was introduced or removed); distinct by hash of (family, program, transformation, options). Signature = '
+        'C41:<scope|undeclared|fgen|reparse|gfortran>:<transformation entry point(s)>:<tag>; tags: kind of the wrong scope '
+        '(unscoped, detached-<node class>, other-unit, stale-copy-of-..., unit-parent-is-not-its-container), class of the undeclared '
+        'symbol, exception class / shape of the offending generated line for the frontend, a closed error category for gfortran '
+        '(the compiler message itself only appears in the detail)')
 ASSUMPTIONS = ['the generators of the home checks produce valid, compilable Fortran (an original that gfortran rejects is a harness '
                'error); gfortran 12 -fsyntax-only with the flags of fprog/native.py is the reference for "accepted by the compiler"',
                'a failure of oracle (3)/(4) that the untransformed parse -> fgen round trip of the same program shows as well is '
@@ -353,6 +360,20 @@ def unit_names(sfs):
     return sorted(W._uname(u, anc) for u, anc in W.units([sf for sf in sfs if sf is not None]))  # pylint: disable=protected-access
 
 
+_SIGNED_OPERAND = re.compile(r'[-+*/]\s*-\s*[\w.(]')
+
+
+def reparse_tag(exc, text):
+    """root-cause tag of a frontend rejection, decided from the GENERATED text (the line the parser names), never from the message"""
+    m = re.search(r'at line (\d+)', str(exc))
+    if m and type(exc).__name__ == 'FortranSyntaxError':
+        lines = text.split('\n')
+        k = int(m.group(1)) - 1
+        if 0 <= k < len(lines) and _SIGNED_OPERAND.search(lines[k].split('!')[0]):
+            return 'signed-operand-directly-after-operator'
+    return 'raises-' + type(exc).__name__
+
+
 def reparse_check(sfs, out):
     """-> None | (tag, detail): the generated text of every file is parsed again by the FP frontend"""
     for sf, (name, text) in zip(sfs, out):
@@ -361,7 +382,7 @@ def reparse_check(sfs, out):
         try:
             again = fresh_parse([(name, text)])
         except Exception as e:  # noqa: the frontend rejects generated code
-            return 'raises-' + type(e).__name__, f'{name}: {e!r}'[:600]
+            return reparse_tag(e, text), f'{name}: {e!r}'[:600]
         a, b = unit_names([sf]), unit_names(again)
         if a != b:
             return 'units-differ', f'{name}: IR has units {a}, re-parsed text has {b}'
@@ -408,6 +429,9 @@ def evaluate(case, prog=None, parser=None, texts=None):
                 continue
             _, oracle, tag, _ = key
             if (oracle, tag) in seen:
+                continue
+            if tag == 'unit-parent-is-not-its-container' and case['family'] == 'extract' and case['xf']['ep'] in ('outline', 'extract'):
+                # here the HARNESS (props/c33._transform) appends the returned routines to the module, not loki
                 continue
             seen.add((oracle, tag))
             n = sum(1 for k in a1 if k not in a0 and k[1:3] == (oracle, tag))
@@ -559,9 +583,30 @@ def strategies(ctx):
     return out
 
 
+# Listed root causes of C41 itself whose trigger is an ingredient of (nearly) every case of a transformation: while the signature
+# is listed in known_findings.d/C41.txt the trigger is not generated (draws counted as excluded); it lives in the committed
+# replay only. As soon as the line is turned into `fixed:` the trigger is generated again.
+K_SPLIT = 'C41:scope:split_loop:unscoped'
+K_FLATTEN = 'C41:reparse:flatten_arrays:signed-operand-directly-after-operator'
+K_PARAM_NEG = 'C41:reparse:ParametriseTransformation:signed-operand-directly-after-operator'
+
+
 def expand(draw, ctx):
     """program draw -> (list of single-transformation cases, prog or None); known-finding exclusions of the home check applied"""
     fam = draw['family']
+    if fam == 'arrays' and K_FLATTEN in ctx.known_sigs:
+        prog = draw['prog']
+        keep = [xf for xf in prog['xforms'] if 'flatten_arrays' not in xf['entry']]
+        ctx.exclude('arrays:listed-C41-finding:flatten_arrays-prints-signed-operand-after-operator', len(prog['xforms']) - len(keep))
+        draw = dict(draw, prog=dict(prog, xforms=keep))
+    if fam == 'loops' and K_SPLIT in ctx.known_sigs and draw['prog']['xf']['kind'] in ('split', 'block'):
+        ctx.exclude('loops:listed-C41-finding:split_loop-leaves-unscoped-symbols')
+        return [], None
+    if fam == 'param' and K_PARAM_NEG in ctx.known_sigs and draw['spec']['opts'].get('replace_by_value') \
+            and draw['spec']['flags'].get('neg_value'):
+        from ..fprog import gen_inline
+        draw = dict(draw, spec=gen_inline.with_flag(draw['spec'], 'neg_value', False))
+        ctx.exclude('param:listed-C41-finding:negative-value-substituted-after-an-operator')
     if fam in ('assoc', 'arrays', 'constprop'):
         prog = draw['prog']
         for t in prog.get('avoided') or []:
